@@ -5,13 +5,13 @@
 #include "private/implementations.h"
 #include "randombytes.h"
 #include "runtime.h"
+#ifdef SODIUM_VERIF
+# include "private/verif.h"
+#endif
 
 #include "donna/poly1305_donna.h"
 #if defined(HAVE_TI_MODE) && defined(HAVE_EMMINTRIN_H)
 # include "sse2/poly1305_sse2.h"
-#ifdef SODIUM_VERIF
-# include "private/verif.h"
-#endif
 #endif
 
 static const crypto_onetimeauth_poly1305_implementation *implementation =
